@@ -315,12 +315,14 @@ def probe_strategy(tier):
             # constraints: the result exposes any dependence on set / address
             # order (the placers document determinism for ordered inputs)
             n = draw(st.integers(16, 40))
-            w = draw(st.integers(4, 7))
+            w = draw(st.sampled_from([4, 5, 6, 7, 9, 10]))
             names = ["v%d" % i for i in range(n)]
             placer = draw(st.sampled_from(["sa-python", "sa-c", "rand"]))
             return {"kind": "place", "case": {
                 "machine": {"w": w, "h": w, "mesh": draw(st.booleans()),
-                            "resources": {"Cores": 4}, "exceptions": [],
+                            # (one core per chip: every vertex fills its chip)
+                            "resources": {"Cores": draw(st.sampled_from(
+                                [4, 4, 1]))}, "exceptions": [],
                             "dead_chips": [], "dead_links": []},
                 "vertices": [{"name": v, "needs": {"Cores": 1}}
                              for v in names],
@@ -568,6 +570,7 @@ def _controller_work(mc, k):
     probe's result when done on the last controller)."""
     import tempfile
     from rig.machine_control.scp_connection import SCPError
+    from rig.machine_control.machine_controller import SpiNNakerMemoryError
     try:
         if k % 3 == 0:
             with tempfile.NamedTemporaryFile(suffix=".aplx") as f:
@@ -579,7 +582,8 @@ def _controller_work(mc, k):
             mc.sdram_alloc(16, tag=2, x=1, y=0, app_id=31)
         else:
             mc.get_chip_info(0, 1)
-    except SCPError:
+    except (SCPError, SpiNNakerMemoryError):
+        # (a tag already taken by an earlier step of the history is refused)
         pass                      # what was sent is the datum
 
 
